@@ -1,4 +1,5 @@
 import CoapVerif.Lemmas.SendQueue
+import CoapVerif.Lemmas.TimerSim
 /-
 C06 — the retransmission queue: every pending message is (re)transmitted on the RFC 7252 §4.2 schedule and
 ends in exactly one outcome.
@@ -518,5 +519,165 @@ example : RunOk (init 0) wevs ∧ (run (init 0) wevs).pend = [] ∧
     (run (init 0) wevs).outs =
       [.nackRetries 14000 0 1, .nackRst 6000 1 1, .tx 6000 1 1 0 6000 100 0, .tx 6000 0 1 2 0 2000 2,
        .acked 3000 0 2, .tx 2000 0 2 0 2000 3000 4, .tx 2000 0 1 1 0 2000 2, .tx 0 0 1 0 0 2000 2] := by decide
+
+/-! ## (6) the code model M is simulated by the timer specification S — any number of messages and sessions
+
+`Coap.Sim` (CoapVerif/Lemmas/TimerSim.lean): `absP` reads the delta list + base time as S's pending list (absolute
+deadline, session, mid, stored timeout `T`, retransmission counter, MAX_RETRANSMIT of the session); `Rel` relates an M
+state to an S state (S's ghost label `t0` erased; S's clock is the time of the last I/O step); `tr` gives the S events an
+M event stands for (`prepare` ↦ `tick now`; `submit` ↦ `tick now, send s mid T mx` with `T` the value
+`coap_calc_timeout` draws; `rxAck` ↦ `ack, tick now`; `rxRst` ↦ `tick now, rst, tick now`; `setNow` ↦ nothing);
+`obsM` / `obsS` project both output logs to what can be observed (transmissions with their retransmission count,
+outcome NACKs).
+
+Scope (`RunIn`, threaded along the run, decidable): events `setNow` (monotone), `prepare`, `submit` of a CON, `rxAck`,
+`rxRst`; every session established, socket open, delay queue empty, 1 ≤ NSTART, MAX_RETRANSMIT < 256 (`SessOk`); a CON
+is submitted while the session has NSTART room, with `T > 0` and `T << MAX_RETRANSMIT` < 2^64 (D7); a submission / an
+RST does not happen at an instant at which a retransmission is due and `coap_io_prepare_io` has not run yet.
+
+Why `_partial`: the FULL intended statement is the same without the two conjuncts `con_active < NSTART` and
+`NothingDue` in `EvIn` (and with NON submissions, `rxNon`, `rxBad`): (a) a CON submitted without NSTART room goes to
+the delay queue and is first transmitted when an outcome of another message releases the slot — possibly in the
+middle of the due loop (give-up → `coap_session_connected` → transmit), which S's `tick` (fire everything due, then
+return) cannot interleave with a `send`: the observable ORDER within one instant differs, so exact output equality
+does not hold for S as written; (b) S fires what is due before anything else happens at an instant, M only when
+`coap_io_prepare_io` runs.  Both are what T2 compares on every run (delay queue lengths, `con_active`). -/
+open Coap.Sim in
+/-- **m_refines_timer_from_partial** (general form): from any M state `l` satisfying the scope invariant `Inv` and any S
+state `ts` related to it, for EVERY in-scope event list: the M run and the S run of the translated events end in
+related states (same pending deadlines / messages / counters, same observable outputs), and `Inv` still holds. -/
+theorem m_refines_timer_from_partial (par : Nat → Msg.Sess) (P : Nat → Nat → Nat → Prop) (hp : ParOk par)
+    (evs : List Msg.Ev) (l : Msg.L) (ts : Timer.TS) (hi : Inv par P l) (hr : Rel (mxOf par) l ts) (hin : RunIn l evs)
+    (hP : ∀ s mid r, Msg.Ev.submit s true mid r ∈ evs →
+      P s mid (calcTimeout (par s).atI (par s).atF (par s).arfI (par s).arfF r)) :
+    Inv par P (Msg.run l evs) ∧ Rel (mxOf par) (Msg.run l evs) (Timer.run ts (trRun l evs)) :=
+  ⟨(run_sim hp evs l ts hi hr hin hP).1, (run_sim hp evs l ts hi hr hin hP).2.1⟩
+
+open Coap.Sim in
+/-- **m_refines_timer_partial**: from the initial state, any number of sessions sharing the send queue, EVERY in-scope
+event list (any interleaving of submissions, clock moves, I/O steps, ACKs and RSTs — punctual or late):
+* S's clock is the time of M's last I/O step;
+* S's pending list (ghost `t0` erased) is exactly what M's delta list stands for: absolute deadline, session,
+  message id, initial timeout `T`, retransmission counter, MAX_RETRANSMIT — in the same order;
+* both have shown the same transmissions (time, session, mid, retransmission number) and the same outcome NACKs
+  (time, session, mid, reason), in the same order. -/
+theorem m_refines_timer_partial (now0 : Nat) (sess : List Msg.Sess) (evs : List Msg.Ev)
+    (hs : ∀ se ∈ sess, SessOk se) (hin : RunIn (Msg.init now0 sess) evs) :
+    let l := Msg.run (Msg.init now0 sess) evs
+    let ts := Timer.run (Timer.init now0) (trRun (Msg.init now0 sess) evs)
+    ts.now ≤ l.now ∧
+    ts.pend.map er = absP (fun s => (parOf sess s).maxRtx) l.q.base l.q.nodes ∧
+    ts.outs.filterMap obsS = l.out.filterMap obsM := by
+  intro l ts
+  have := (run_sim (P := fun _ _ _ => True) (parOk_of sess hs) evs _ (Timer.init now0)
+    (inv_init _ now0 sess hs) (rel_init _ now0 sess) hin (fun _ _ _ _ => trivial)).2.1
+  exact ⟨this.now, this.pend, this.outs⟩
+
+open Coap.Sim in
+/-- **m_schedule_all_partial** (`retransmit_schedule` lifted from S to M): in every in-scope run that is punctual
+(`Punctual`: no I/O step, submission or arrival happens after the clock was moved past a pending deadline), for any
+number of messages and sessions sharing the queue: EVERY transmission `tx t s mid k con` M ever emits is a Confirmable,
+belongs to a `coap_send` of (s, mid) in the run with PRNG byte `r`, its first transmission `tx t0 s mid 0` is in the
+outputs, and `t = t0 + (2^k − 1)·T` where `T = coap_calc_timeout(session parameters, r)` is the value drawn at that
+submission — drawn ONCE: all retransmissions of the message use the same `T` —, and `k ≤ MAX_RETRANSMIT`. -/
+theorem m_schedule_all_partial (now0 : Nat) (sess : List Msg.Sess) (evs : List Msg.Ev)
+    (hs : ∀ se ∈ sess, SessOk se) (hin : RunIn (Msg.init now0 sess) evs) (hpu : Punctual (Msg.init now0 sess) evs) :
+    ∀ t s mid k con, Msg.Out.tx t s mid k con ∈ (Msg.run (Msg.init now0 sess) evs).out →
+      con = true ∧ ∃ t0 r, Msg.Ev.submit s true mid r ∈ evs ∧
+        Msg.Out.tx t0 s mid 0 true ∈ (Msg.run (Msg.init now0 sess) evs).out ∧
+        t = sched t0 (calcTimeout (parOf sess s).atI (parOf sess s).atF (parOf sess s).arfI (parOf sess s).arfF r) k ∧
+        k ≤ (parOf sess s).maxRtx := by
+  intro t s mid k con hmem
+  have hp := parOk_of sess hs
+  obtain ⟨_, hr, hsend⟩ := run_sim (P := fun _ _ _ => True) hp evs _ (Timer.init now0)
+    (inv_init _ now0 sess hs) (rel_init _ now0 sess) hin (fun _ _ _ _ => trivial)
+  have hok := run_runOk (P := fun _ _ _ => True) hp evs _ (Timer.init now0)
+    (inv_init _ now0 sess hs) (rel_init _ now0 sess) hin hpu (fun _ _ _ _ => trivial)
+  have hor := Timer.run_orig (Q := fun s mid T mx => ∃ r, Msg.Ev.submit s true mid r ∈ evs ∧
+      T = calcTimeout (parOf sess s).atI (parOf sess s).atF (parOf sess s).arfI (parOf sess s).arfF r ∧
+      mx = (parOf sess s).maxRtx) _ (Timer.init now0) (Timer.orig_init _ now0) hsend
+  obtain ⟨hc, t0, T, mx, hS⟩ := obs_tx_M_to_S hr.outs hmem
+  obtain ⟨hsch, hk⟩ := retransmit_schedule now0 _ hok t s mid k t0 T mx hS
+  obtain ⟨⟨r, hsub, hT, hmx⟩, h0⟩ := hor.2 t s mid k t0 T mx hS
+  exact ⟨hc, t0, r, hsub, obs_tx_S_to_M hr.outs h0, by rw [← hT]; exact hsch, by rw [← hmx]; exact hk⟩
+
+open Coap.Sim in
+/-- **m_pdu_and_timeout_fixed_partial** (byte identity / `T` drawn once, as an invariant): in every in-scope run, every
+node in the send queue — whatever has happened to it: any number of re-insertions by `coap_retransmit`, pops,
+removals and insertions of other messages — still carries exactly what its `coap_send` put there: the fields standing
+for the PDU (message id, token, type CON) are unchanged and the stored `timeout` is the value `coap_calc_timeout` drew
+at that submission (only `t` and `retransmit_cnt` ever change; the delay is always computed as `timeout << cnt`). -/
+theorem m_pdu_and_timeout_fixed_partial (now0 : Nat) (sess : List Msg.Sess) (evs : List Msg.Ev)
+    (hs : ∀ se ∈ sess, SessOk se) (hin : RunIn (Msg.init now0 sess) evs) :
+    ∀ n ∈ (Msg.run (Msg.init now0 sess) evs).q.nodes,
+      n.con = true ∧ n.tok = n.mid ∧ n.cnt ≤ (parOf sess n.sess).maxRtx ∧
+      ∃ r, Msg.Ev.submit n.sess true n.mid r ∈ evs ∧
+        n.timeout = calcTimeout (parOf sess n.sess).atI (parOf sess n.sess).atF (parOf sess n.sess).arfI
+          (parOf sess n.sess).arfF r := by
+  intro n hn
+  have hi := (run_sim (P := fun s mid T => ∃ r, Msg.Ev.submit s true mid r ∈ evs ∧
+      T = calcTimeout (parOf sess s).atI (parOf sess s).atF (parOf sess s).arfI (parOf sess s).arfF r)
+    (parOk_of sess hs) evs _ (Timer.init now0)
+    (inv_init _ now0 sess hs) (rel_init _ now0 sess) hin (fun s mid r h => ⟨r, h, rfl⟩)).1
+  obtain ⟨hcon, htok, _, hcnt, _, hP⟩ := hi.nodes n hn
+  exact ⟨hcon, htok, hcnt, hP⟩
+
+open Coap.Sim in
+/-- **m_due_fires_partial** (`due_fires` lifted): in every in-scope run, after `coap_io_prepare_io` no pending message
+of any session is due — each due one has been retransmitted (and re-armed strictly later) or concluded. -/
+theorem m_due_fires_partial (now0 : Nat) (sess : List Msg.Sess) (evs : List Msg.Ev)
+    (hs : ∀ se ∈ sess, SessOk se) (hin : RunIn (Msg.init now0 sess) evs) :
+    let l := Msg.run (Msg.init now0 sess) evs
+    ∀ e ∈ abs (Msg.prepareCore l).1.q, (Msg.prepareCore l).1.now < e.deadline := by
+  intro l e he
+  obtain ⟨hi, hr, _⟩ := run_sim (P := fun _ _ _ => True) (parOk_of sess hs) evs _ (Timer.init now0)
+    (inv_init _ now0 sess hs) (rel_init _ now0 sess) hin (fun _ _ _ _ => trivial)
+  have hnd := (tick_sim (parOk_of sess hs) _ _ hi hr).2.2
+  rw [← Msg.prepareCore_fst] at hnd
+  rw [nothingDue_iff] at hnd
+  generalize (Msg.prepareCore l).1 = l' at *
+  rcases l' with ⟨now, ⟨base, nodes⟩, ss, out⟩
+  rcases nodes with _ | ⟨h, rest⟩
+  · simp [abs, absFrom] at he
+  · have h1 := hnd h rest rfl
+    simp only [abs, absFrom, List.mem_cons] at he
+    simp only [] at h1 ⊢
+    rcases he with rfl | he
+    · exact h1
+    · have := absFrom_ge _ _ e he; omega
+
+/-! ### (3') the returned wait against every pending deadline of every session -/
+open Coap.Msg in
+/-- **wait_le_every_deadline** (every state, any number of messages and sessions, no scope restriction): the wait
+`coap_io_prepare_io` returns never exceeds the time to ANY pending deadline of ANY session (`0` when one is already
+due); it is exactly the time to the earliest one reduced to the `unsigned int` result (mod 2^32), and `0` iff told so by
+an empty queue. -/
+theorem wait_le_every_deadline (l : L) : let r := prepareCore l
+    (∀ e ∈ abs r.1.q, r.2 ≤ e.deadline - r.1.now) ∧
+    (∀ d, Spec.SQ.earliest (abs r.1.q) = some d → r.2 = (d - r.1.now) % 4294967296) ∧
+    (r.1.q.nodes = [] → r.2 = 0) :=
+  Coap.Sim.prepareCore_wait_all l
+
+/-- witness run: two sessions sharing the send queue (NSTART 1 each), T = 2000 and T = 3000 ticks -/
+def mevs : List Msg.Ev :=
+  [.submit 0 true 1 0, .setNow 500, .submit 1 true 7 255, .setNow 2000, .prepare, .setNow 3500, .prepare,
+   .rxAck 1 7, .setNow 6000, .prepare, .setNow 7000, .submit 1 true 8 128, .rxRst 0 1, .setNow 9500, .prepare]
+
+open Coap.Sim in
+/-- non-vacuity of the hypotheses of `m_refines_timer_partial`, `m_schedule_all_partial`,
+`m_pdu_and_timeout_fixed_partial`, `m_due_fires_partial`: the witness run is in scope and punctual; two messages of
+two sessions interleave in the queue, one is ACKed, one is RST; a third is retransmitted -/
+example : (∀ se ∈ [({} : Msg.Sess), {}], SessOk se) ∧ RunIn (Msg.init 0 [{}, {}]) mevs ∧
+    Punctual (Msg.init 0 [{}, {}]) mevs ∧
+    (Msg.run (Msg.init 0 [{}, {}]) mevs).out.filterMap obsM =
+      [.tx 9500 1 8 1 true, .nackRst 7000 0 1, .tx 7000 1 8 0 true, .tx 6000 0 1 2 true, .tx 3500 1 7 1 true,
+       .tx 2000 0 1 1 true, .tx 500 1 7 0 true, .tx 0 0 1 0 true] ∧
+    (Timer.run (Timer.init 0) (trRun (Msg.init 0 [{}, {}]) mevs)).outs.filterMap obsS =
+      (Msg.run (Msg.init 0 [{}, {}]) mevs).out.filterMap obsM := by decide
+
+open Coap.Msg in
+/-- non-vacuity of `wait_le_every_deadline`: two sessions, deadlines 1010 and 1030, now = 1003: wait 7 -/
+example : let r := prepareCore { now := 1003, q := wq, sess := [{}, {}], out := [] }
+    (abs r.1.q).map (·.deadline) = [1010, 1030] ∧ r.2 = 7 := by decide
 
 end Coap.C06
